@@ -31,6 +31,8 @@ static rc::Gen<Op> c09_op()
 	            const std::string &f = full[which % 3]; o.s = f.substr(0, 1 + (size_t)cut % (f.size() - 1)); return o; }, conn, rng(0, 3), rng(0, 80))},
 	    {3, rc::gen::apply([](int conn, int n) { Op o; o.kind = MSG; o.conn = conn; std::string pad; for (int i = 0; i < n; i++) pad += (i % 3 == 0) ? "}" : (i % 3 == 1) ? "]" : "\\\"";
 	            o.s = "{\"id\":9,\"method\":\"info\",\"params\":{\"filler\":\"" + pad + "\"}}"; return o; }, conn, rng(0, 120))},
+	    // a burst of large messages on one connection (d = 1: expanded by c09_gen); under the regrouping schedule they arrive in one read
+	    {1, op_gen(INFO, conn, rng(10, 14), zero(), zero(), rc::gen::just(1), zero(), no)},
 	    {1, op_gen(CONNECT, zero(), rng(0, 3), rng(0, 4), zero(), zero(), zero(), no)},
 	    {1, op_gen(END, conn, rc::gen::just(0), zero(), zero(), zero(), zero(), no)},
 	});
@@ -41,13 +43,19 @@ static rc::Gen<Scenario> c09_gen()
 	auto variant = rc::gen::apply([](int d, int c, int j, int e, int b) { return std::vector<int>{d, c, j, e, b}; },
 	                              rc::gen::weightedElement<int>({{2, 0}, {1, 1}, {1, 2}, {1, 3}, {1, 4}, {1, 7}}), rc::gen::weightedElement<int>({{3, 0}, {2, 1}, {1, 2}, {1, 3}, {1, 5}, {1, 17}}),
 	                              rng(-1, 7), rc::gen::weightedElement<int>({{2, 0}, {1, 1}, {1, 2}, {1, 3}}),
-	                              rc::gen::weightedElement<int>({{2, 0}, {1, 1}, {1, 2}, {1, 3}, {1, 4}}));
+	                              rc::gen::weightedElement<int>({{2, 0}, {1, 1}, {1, 2}, {1, 3}, {1, 4}, {2, 5}}));
 	return rc::gen::apply([](std::vector<int> transports, std::vector<Op> ops, std::vector<std::vector<int>> variants) {
 		Scenario sc;
 		{ Op o; o.kind = CONNECT; o.a = 0; sc.ops.push_back(o); }
 		{ Op o; o.kind = CONNECT; o.a = 1; sc.ops.push_back(o); }
 		for (int t : transports) { Op o; o.kind = CONNECT; o.a = t; sc.ops.push_back(o); }
-		for (auto &o : ops) sc.ops.push_back(o);
+		for (auto &o : ops) {
+			if (o.kind == INFO && o.d == 1) {
+				for (int i = 0; i < o.a; i++) { Op m; m.kind = MSG; m.conn = o.conn; m.s = "{\"id\":" + std::to_string(7000 + i) + ",\"method\":\"info\",\"params\":{\"filler\":\"" + std::string(400, 'f') + "\"}}"; sc.ops.push_back(m); }
+				continue;
+			}
+			sc.ops.push_back(o);
+		}
 		sc.variants = variants;
 		return sc;
 	}, rc::gen::resize(2, rc::gen::container<std::vector<int>>(rng(0, 3))), rc::gen::container<std::vector<Op>>(c09_op()), rc::gen::container<std::vector<std::vector<int>>>(3, variant));
